@@ -86,6 +86,26 @@ fn base_config(r: &mut Rng, id: &str) -> SimConfig {
     if r.chance(1, 8) {
         cfg.default_user_modes.registered = true;
     }
+    if id == "C14" {
+        // masks in the configuration: operator masks, user masks, predefined lists
+        let ms = ["*!*@10.0.0.*", "?nn!*@*", "*!~u?@*", "a*!*@*", "*!*@*:*", "*n*!*@*", "ann!~u0@10.0.0.1", "*!*@10.0.0.1?", "żół?!*@*", "*!*@2001:db8::*"];
+        if r.chance(1, 2) {
+            cfg.operators.push(OperCfg { name: "masked".into(), password: "mpw".into(), mask: Some(ms[r.below(ms.len())].into()) });
+        }
+        if r.chance(1, 2) {
+            cfg.users.push(UserCfg { name: "u1".into(), nick: "bob".into(), password: None, mask: Some(ms[r.below(ms.len())].into()) });
+        }
+        if r.chance(1, 2) {
+            cfg.channels.push(ChanCfg {
+                name: "#msk".into(),
+                ban: vec![ms[r.below(ms.len())].into()],
+                exception: if r.chance(1, 2) { vec![ms[r.below(ms.len())].into()] } else { vec![] },
+                invite_only: r.chance(1, 2),
+                invite_exception: if r.chance(1, 2) { vec![ms[r.below(ms.len())].into()] } else { vec![] },
+                ..Default::default()
+            });
+        }
+    }
     if matches!(id, "C03" | "C20" | "C02") || r.chance(1, 10) {
         if r.chance(1, 2) {
             cfg.password = Some("srvpw".into());
@@ -154,6 +174,12 @@ pub(crate) fn profile_for(id: &str) -> Profile {
             p.nick_pool = 3;
             p.pre_register = 2;
             p.conns = (4, 7);
+            p
+        }
+        "C14" => {
+            let mut p = p.w(&[(K::ModeMask, 30), (K::WhoMask, 14), (K::Join, 22), (K::Part, 8), (K::Privmsg, 8), (K::Invite, 4), (K::ModeChan, 8), (K::ModeList, 5), (K::ModeQuery, 4), (K::Nick, 8), (K::Oper, 6), (K::Register, 6), (K::Kick, 1)]);
+            p.nick_pool = 14;
+            p.ipv6 = true;
             p
         }
         "C12" => p.w(&[(K::Join, 14), (K::Part, 5), (K::Privmsg, 6), (K::Topic, 3), (K::Nick, 3), (K::ModeUser, 3), (K::Away, 2), (K::Names, 2), (K::Who, 2)]),
